@@ -1,12 +1,15 @@
 import Acra.Drv.FTI
+import Acra.Drv.FTI2
 import Acra.Drv.Float
 import Acra.Drv.Search
 namespace Acra.Drv
 def allCodecs : List Codec := List.flatten [
-  ftiCodecs
+  ftiCodecs,
+  fti2Codecs
 ]
 def allFuncs : List Func := List.flatten [
   ftiFuncs,
+  fti2Funcs,
   floatFuncs,
   searchFuncs
 ]
